@@ -363,6 +363,9 @@ class ParameterCollection(metaclass=_ParameterCollectionType):
             )
 
     def __delitem__(self, name):
+        if getattr(self, "readOnly", False):
+            raise RuntimeError(f"Cannot delete a read-only parameter {name}.")
+
         if isinstance(name, str):
             pd = self.paramDefs[name]
             if hasattr(self, pd.fieldName):
